@@ -66,52 +66,11 @@ def _parse(
         )
 
     if isinstance(parsed, _Interval):
-        if parsed.duration is not None:
-            duration = parsed.duration
-
-            if parsed.start is not None:
-                dt = pendulum.instance(parsed.start, tz=options.get("tz", UTC))
-
-                return pendulum.interval(
-                    dt,
-                    dt.add(
-                        years=duration.years,
-                        months=duration.months,
-                        weeks=duration.weeks,
-                        days=duration.remaining_days,
-                        hours=duration.hours,
-                        minutes=duration.minutes,
-                        seconds=duration.remaining_seconds,
-                        microseconds=duration.microseconds,
-                    ),
-                )
-
-            dt = pendulum.instance(
-                t.cast(datetime.datetime, parsed.end), tz=options.get("tz", UTC)
-            )
-
-            return pendulum.interval(
-                dt.subtract(
-                    years=duration.years,
-                    months=duration.months,
-                    weeks=duration.weeks,
-                    days=duration.remaining_days,
-                    hours=duration.hours,
-                    minutes=duration.minutes,
-                    seconds=duration.remaining_seconds,
-                    microseconds=duration.microseconds,
-                ),
-                dt,
-            )
-
-        return pendulum.interval(
-            pendulum.instance(
-                t.cast(datetime.datetime, parsed.start), tz=options.get("tz", UTC)
-            ),
-            pendulum.instance(
-                t.cast(datetime.datetime, parsed.end), tz=options.get("tz", UTC)
-            ),
-        )
+        try:
+            return _interval(parsed, options.get("tz", UTC))
+        except (OverflowError, ValueError):
+            # An endpoint is not a representable datetime
+            raise ParserError(f"Unable to parse string [{text}]")
 
     if isinstance(parsed, Duration):
         return parsed
@@ -132,3 +91,49 @@ def _parse(
             raise ParserError(f"Unable to parse string [{text}]")
 
     raise NotImplementedError
+
+
+def _interval(parsed: _Interval, tz: t.Any) -> Interval[t.Any]:
+    """
+    Builds the Interval described by the parsed elements.
+    """
+    if parsed.duration is not None:
+        duration = parsed.duration
+
+        if parsed.start is not None:
+            dt = pendulum.instance(parsed.start, tz=tz)
+
+            return pendulum.interval(
+                dt,
+                dt.add(
+                    years=duration.years,
+                    months=duration.months,
+                    weeks=duration.weeks,
+                    days=duration.remaining_days,
+                    hours=duration.hours,
+                    minutes=duration.minutes,
+                    seconds=duration.remaining_seconds,
+                    microseconds=duration.microseconds,
+                ),
+            )
+
+        dt = pendulum.instance(t.cast(datetime.datetime, parsed.end), tz=tz)
+
+        return pendulum.interval(
+            dt.subtract(
+                years=duration.years,
+                months=duration.months,
+                weeks=duration.weeks,
+                days=duration.remaining_days,
+                hours=duration.hours,
+                minutes=duration.minutes,
+                seconds=duration.remaining_seconds,
+                microseconds=duration.microseconds,
+            ),
+            dt,
+        )
+
+    return pendulum.interval(
+        pendulum.instance(t.cast(datetime.datetime, parsed.start), tz=tz),
+        pendulum.instance(t.cast(datetime.datetime, parsed.end), tz=tz),
+    )
